@@ -113,6 +113,11 @@ class _P:
                 r = self.alt()
                 self.eat(")")
                 return ("nla", r)
+            if self.t.startswith("?=", self.i):
+                self.i += 2
+                r = self.alt()
+                self.eat(")")
+                return ("pla", r)
             if self.peek() == "?":
                 raise Unsupported("group extension (?%s" % self.t[self.i + 1 : self.i + 3])
             self.ngroups += 1
@@ -194,7 +199,7 @@ def has_la(n):
     k = n[0]
     if k in ("lit", "cls", "bref", "str"):
         return False
-    if k == "nla":
+    if k in ("nla", "pla"):
         return True
     if k in ("cat", "alt"):
         return any(has_la(x) for x in n[1])
@@ -217,7 +222,7 @@ def has_bref(n):
         return False
     if k in ("cat", "alt"):
         return any(has_bref(x) for x in n[1])
-    if k in ("grp", "nla", "rep"):
+    if k in ("grp", "nla", "pla", "rep"):
         return has_bref(n[1])
     if k in ("cap", "capval"):
         return has_bref(n[2])
@@ -228,6 +233,8 @@ def expand_brefs(n, g):
     """R[g]: capture i becomes 'X restricted to the literal g[i-1]', \\i becomes the literal g[i-1]."""
     k = n[0]
     if k == "cap":
+        if n[1] - 1 >= len(g):
+            return ("grp", expand_brefs(n[2], g))  # a group the template did not expect: left unconstrained
         return ("capval", n[1], expand_brefs(n[2], g), g[n[1] - 1])
     if k == "bref":
         if n[1] - 1 >= len(g):
@@ -237,7 +244,7 @@ def expand_brefs(n, g):
         return n
     if k in ("cat", "alt"):
         return (k, [expand_brefs(x, g) for x in n[1]])
-    if k in ("grp", "nla"):
+    if k in ("grp", "nla", "pla"):
         return (k, expand_brefs(n[1], g))
     if k == "rep":
         return ("rep", expand_brefs(n[1], g), n[2], n[3])
@@ -388,7 +395,7 @@ class Tr:
             return loop(self.plain(n[1], cols, grpcols), lo, hi)
         if k == "bref":
             raise Unsupported("back-reference (expand first)")
-        if k == "nla":
+        if k in ("nla", "pla"):
             raise Unsupported("look-ahead in plain context")
         raise Unsupported(k)
 
@@ -399,6 +406,8 @@ class Tr:
         k = n[0]
         if k == "nla":
             return inter(K, comp(self.lang(n[1], self.w.ANY, lacols, lacols, None)))
+        if k == "pla":
+            return inter(K, self.lang(n[1], self.w.ANY, lacols, lacols, None))
         if k == "cat":
             r = K
             for x in reversed(n[1]):
